@@ -77,7 +77,7 @@ def count_distinct(hash_files, cap=8000000):
     return len(set(a))
 
 
-def run_units(pid, units, tier, seed, level, rule, assumptions, extra_cov=None, known=None, exclude_note=None):
+def run_units(pid, units, tier, seed, level, rule, assumptions, extra_cov=None, known=None, exclude_note=None, post_cov=None):
     """Build and run all units; returns exit code.  Writes evidence."""
     t0 = time.time()
     work = tempfile.mkdtemp(prefix="skv-%s-" % pid, dir=skv._mk(os.path.join(skv.BUILD, "tmp")))
@@ -155,6 +155,8 @@ def run_units(pid, units, tier, seed, level, rule, assumptions, extra_cov=None, 
             cov.update(extra_cov)
         if exclude_note:
             cov["excluded_known_findings"] = exclude_note
+        if post_cov:
+            post_cov(cov)
         uniq = {}
         for rp, un, msg in violations:
             uniq.setdefault(rp, (un, msg))
